@@ -174,7 +174,9 @@ class MeshTet1(MeshSimplex, Mesh3D):
         # add noise so that there are no edges with the same length
         # use a local generator to leave the global random state untouched
         rng = np.random.RandomState(1337)
-        p = p.copy() + 1e-10 * rng.random_sample(p.shape)
+        # relative to the size of the coordinates, else the noise is lost
+        noise = 1e-10 * np.max(np.abs(p))
+        p = p.copy() + noise * rng.random_sample(p.shape)
 
         l01 = np.sqrt(np.sum((p[:, t[0, marked]] - p[:, t[1, marked]]) ** 2,
                              axis=0))
